@@ -167,6 +167,7 @@ def check_history(case):
     keys = [k for k in ("shape", "pinv", "mu") if case.get(k) is not None]
     n = 0
     for depth in (1, 2):
+      for how in ("assign", "inplace"):  # a new tensor; an in-place edit followed by the notification
         for seq in itertools.product(keys, repeat=depth):
             for orders in itertools.product(("rp", "pr"), repeat=depth + 1):
                 n += 1
@@ -177,10 +178,15 @@ def check_history(case):
                     read(model, orders[0])
                     for i, key in enumerate(seq):
                         cur[key] = ALT[key](cur[key])
-                        dic[key].tensor = torch.tensor([cur[key]])
+                        if how == "assign":
+                            dic[key].tensor = torch.tensor([cur[key]])
+                        else:
+                            with torch.no_grad():
+                                dic[key].tensor.copy_(torch.tensor([cur[key]]))
+                            dic[key].fire_parameter_changed()
                         r, p = read(model, orders[i + 1])
                         b = check_values(cur, r.reshape(-1), p.reshape(-1),
-                                         f"after updates {list(seq[:i + 1])} read orders {orders[:i + 2]}")
+                                         f"after updates {list(seq[:i + 1])} ({how}) read orders {orders[:i + 2]}")
                         bad += [("stale_" + name, d) for name, d in b]
                 except Exception as e:
                     bad.append(("update_raises", f"{seq} {orders}: {type(e).__name__}: {e}"))
